@@ -88,23 +88,29 @@ def main():
     src = open(os.path.join(C.VERIF, 'native', 'seq_replay.rs')).read()
     bad = 0
     trees = 0
+    both = 0
     for i in range(n):
         sc = random_script(rng)
         got = {}
         r = Runner(prog, sc)
         r.end_hook = lambda it, d: got.setdefault('dump', py_dump(it, d))
         r.run()
-        if r.findings:
-            print('script %d: interpreter reports %s on the unchanged tree: %s' % (i, r.findings[0].kind, r.findings[0].what[:300]))
-            bad += 1
-            continue
         args = replay_args(sc, Finding('tv', 'none', '', {}, [])) + ['dump=1']
-        p = native.run_program('seqreplay', src, args, release=False, timeout=120)
-        lines = [l[5:] for l in (p.stdout or '').split('\n') if l.startswith('DUMP ')]
-        last = (p.stdout or '').strip().split('\n')[-1]
-        if 'REPLAY ok' not in last:
-            print('script %d: native replay: %s' % (i, last))
-            bad += 1
+        try:
+            p = native.run_program('seqreplay', src, args, release=False, timeout=120)
+            out = p.stdout or ''
+        except native.subprocess.TimeoutExpired:
+            out = 'REPLAY mismatch: the native run did not return'
+        lines = [l[5:] for l in out.split('\n') if l.startswith('DUMP ')]
+        last = out.strip().split('\n')[-1] if out.strip() else 'no output'
+        native_ok = 'REPLAY ok' in last
+        if r.findings or not native_ok:
+            if bool(r.findings) != (not native_ok):
+                # the two executions disagree about whether this script behaves like the reference: a translator fault
+                print('script %d: interpreter %s, native run: %s\n  args: %s' % (i, ('reports ' + r.findings[0].what[:200]) if r.findings else 'agrees with the reference', last[:200], ' '.join(args)))
+                bad += 1
+            else:
+                both += 1       # both see the same script misbehave (a defect of the tree under test, reported by the campaign itself)
             continue
         if lines != got.get('dump'):
             bad += 1
@@ -115,7 +121,7 @@ def main():
                     break
         else:
             trees += sum(1 for l in lines if ' T ' in l)
-    print('translator validation: %d scripts, %d disagreements, %d tree bins compared node by node' % (n, bad, trees))
+    print('translator validation: %d scripts, %d disagreements, %d tree bins compared node by node%s' % (n, bad, trees, (', %d scripts misbehave identically in both' % both) if both else ''))
     return 1 if bad else 0
 
 
